@@ -69,7 +69,7 @@ Section Gen.
   Lemma raw_setattr_frame l a v F :
     istable F ->
     T (fun h => (Inv h /\ F h) /\ storable l a v h /\ conforms_at ct l a v h) (raw_setattr l a v)
-      (fun _ h => Inv h /\ F h) Inv.
+      (fun _ h => Inv h /\ F h) (fun h => Inv h /\ F h).
   Proof.
     intro SF. unfold raw_setattr.
     eapply T_bind; [apply T_read_inst; tauto|]. intros [cl d]. cbn [fst snd].
@@ -86,11 +86,11 @@ Section Gen.
   Theorem mutate_attr_inplace_gen l a v tc force skip F :
     istable F ->
     T (fun h => (Inv h /\ F h) /\ storable l a v h /\ (tc = false -> conforms_at ct l a v h))
-      (mutate_attr ct rec l a v true tc force skip) (fun _ h => Inv h /\ F h) Inv.
+      (mutate_attr ct rec l a v true tc force skip) (fun _ h => Inv h /\ F h) (fun h => Inv h /\ F h).
   Proof.
     intro SF. unfold mutate_attr. destruct (is_sentinel v); [apply T_ret; tauto|].
     set (P := fun h => (Inv h /\ F h) /\ storable l a v h /\ (tc = false -> conforms_at ct l a v h)).
-    assert (PE : forall h, P h -> Inv h) by (unfold P; tauto).
+    assert (PE : forall h, P h -> Inv h /\ F h) by (unfold P; tauto).
     eapply T_bind; [apply T_read_inst; exact PE|]. intros [cl d]. cbn [fst snd].
     eapply T_bind; [apply T_cls_of|]. { intros h [H _]. auto. }
     intros k.
@@ -130,12 +130,14 @@ Section SetAttrGen.
   Hypothesis Hninv : no_inval_table ct.
   Notation Inv := (Inv ct).
 
-  (* setattr with flags and a frame, on an instance of class cl whose attribute a is a leaf *)
+  (* setattr with flags and a frame, on an instance of class cl whose attribute a is a leaf;
+     the frame survives failures too *)
   Lemma setattr_gen fuel l cl k a v force skip F :
     xstable F -> lookup_cls ct cl = Some k ->
     (forall sp, lookup_attr k a = Some sp -> leaf_attr sp) ->
     T (fun h => (Inv h /\ F h) /\ is_inst l cl h /\ loose h v)
-      (setattr_ ct (exec ct fuel) l a v force skip) (fun _ h => (Inv h /\ F h) /\ is_inst l cl h) Inv.
+      (setattr_ ct (exec ct fuel) l a v force skip) (fun _ h => (Inv h /\ F h) /\ is_inst l cl h)
+      (fun h => (Inv h /\ F h) /\ is_inst l cl h).
   Proof.
     intros [SFc SFi] Hk Hla. unfold setattr_.
     eapply T_bind; [apply T_read_inst; tauto|]. intros [cl0 d0]. cbn [fst snd].
@@ -144,20 +146,24 @@ Section SetAttrGen.
     rewrite N in N0. inversion N0; subst cl0 d0. rewrite Hk in Hk0. inversion Hk0; subst k0.
     set (G := fun h => F h /\ is_inst l cl h).
     assert (SG : xstable G) by (apply xstable_and; [split; auto|apply xstable_is_inst]).
+    assert (GE : forall h, IF ct G h -> (Inv h /\ F h) /\ is_inst l cl h).
+    { intros h [I1 [F1 N1]]. auto. }
     assert (Store : forall value, T (fun h => IF ct G h /\ loose h value)
                             (mutate_attr ct (exec ct fuel) l a value true true force skip)
-                            (fun _ h => (Inv h /\ F h) /\ is_inst l cl h) Inv).
+                            (fun _ h => (Inv h /\ F h) /\ is_inst l cl h)
+                            (fun h => (Inv h /\ F h) /\ is_inst l cl h)).
     { intros value. eapply T_conseq;
-        [apply (mutate_attr_inplace_gen ct Hflat Hninv (exec ct fuel) l a value true force skip G (proj2 SG))| | |auto].
+        [apply (mutate_attr_inplace_gen ct Hflat Hninv (exec ct fuel) l a value true force skip G (proj2 SG))| | |exact GE].
       - intros h [[I1 G1] L1]. split; [split; auto|]. split; [left; exact L1|discriminate].
-      - intros r h [I1 [F1 N1]]. auto. }
+      - intros r h H. apply GE. exact H. }
     destruct (lookup_attr k a) as [sp|] eqn:Ha.
-    - refine ((_ : T (fun h => IF ct G h /\ loose h v) _ (fun _ h => (Inv h /\ F h) /\ is_inst l cl h) Inv) s _);
+    - refine ((_ : T (fun h => IF ct G h /\ loose h v) _ (fun _ h => (Inv h /\ F h) /\ is_inst l cl h)
+                     (fun h => (Inv h /\ F h) /\ is_inst l cl h)) s _);
         [|split; [split; [exact I|split; [exact Fh|exists d; exact N]]|exact L]].
       eapply T_bind with (Q := fun value h => IF ct G h /\ loose h value).
       + eapply T_conseq;
           [apply (prepare_attr_value_any ct Hflat fuel sp l v G (Hla sp eq_refl) (proj1 SG))
-          | auto | auto | intros h [I1 _]; exact I1].
+          | auto | auto | exact GE].
       + intros value. apply Store.
     - rewrite bind_ret_l. apply (Store v s). split; [split; [exact I|split; [exact Fh|exists d; exact N]]|exact L].
   Qed.
@@ -166,7 +172,8 @@ Section SetAttrGen.
     xstable F -> lookup_cls ct cl = Some k ->
     (forall sp, lookup_attr k a = Some sp -> leaf_attr sp) ->
     T (fun h => (Inv h /\ F h) /\ is_inst l cl h /\ loose h v)
-      (exec ct fuel (KSetAttr l a v force skip)) (fun _ h => (Inv h /\ F h) /\ is_inst l cl h) Inv.
+      (exec ct fuel (KSetAttr l a v force skip)) (fun _ h => (Inv h /\ F h) /\ is_inst l cl h)
+      (fun h => (Inv h /\ F h) /\ is_inst l cl h).
   Proof.
     intros SF Hk Hla. destruct fuel as [|f]; [apply T_fail; tauto|]. rewrite exec_S. now apply (setattr_gen f l cl k).
   Qed.
@@ -228,12 +235,14 @@ Section Defaults.
     - intros s Hs. rewrite (protect_nonref _ s Hd). split; auto. now apply nonref_loose.
   Qed.
 
-  (* del obj.a / the body of reset_<a>, in place, on a leaf attribute of an instance of class cl *)
-  Lemma delattr_inv fuel l cl k a F :
+  (* del obj.a / the body of reset_<a>, in place, on a leaf attribute of an instance of class cl;
+     the frame survives failures *)
+  Lemma delattr_inv fuel l cl k a skip F :
     xstable F -> lookup_cls ct cl = Some k ->
     (forall sp, lookup_attr k a = Some sp -> leaf_attr sp /\ default_ok k sp) ->
     T (fun h => (Inv h /\ F h) /\ is_inst l cl h)
-      (delattr_ ct (exec ct fuel) l a false false) (fun _ h => Inv h /\ F h) Inv.
+      (delattr_ ct (exec ct fuel) l a false skip) (fun _ h => (Inv h /\ F h) /\ is_inst l cl h)
+      (fun h => (Inv h /\ F h) /\ is_inst l cl h).
   Proof.
     intros SF Hk Hla. pose proof SF as [SFc SFi]. unfold delattr_.
     eapply T_bind; [apply T_read_inst; tauto|]. intros [cl0 d0]. cbn [fst snd].
@@ -242,41 +251,44 @@ Section Defaults.
     rewrite N in N0. inversion N0; subst cl0 d0. rewrite Hk in Hk0. inversion Hk0; subst k0.
     set (G := fun h => F h /\ is_inst l cl h).
     assert (SG : xstable G) by (apply xstable_and; [exact SF|apply xstable_is_inst]).
-    assert (Del : T (IF ct G) (raw_delattr l a ;;; invalidate_attrs ct (exec ct fuel) l a ;;; ret VNone)
-                    (fun _ h => Inv h /\ F h) Inv).
+    assert (GE : forall h, IF ct G h -> (Inv h /\ F h) /\ is_inst l cl h).
+    { intros h [I1 [F1 N1]]. auto. }
+    assert (Del : T (IF ct G) (raw_delattr l a ;;; (if skip then ret tt else invalidate_attrs ct (exec ct fuel) l a) ;;; ret VNone)
+                    (fun _ h => (Inv h /\ F h) /\ is_inst l cl h) (fun h => (Inv h /\ F h) /\ is_inst l cl h)).
     { eapply T_bind with (Q := fun _ h => IF ct G h).
-      - unfold raw_delattr. eapply T_bind; [apply T_read_inst; intros h [H _]; exact H|]. intros [cl1 d1]. cbn [fst snd].
-        destruct (assoc a d1); [|apply T_fail; intros h [[H _] _]; exact H].
+      - unfold raw_delattr. eapply T_bind; [apply T_read_inst; exact GE|]. intros [cl1 d1]. cbn [fst snd].
+        destruct (assoc a d1); [|apply T_fail; intros h [H _]; apply GE; exact H].
         apply T_write. intros h [[I1 G1] N1]. split; [apply nth_error_Some; congruence|].
         split; [now apply Inv_delete|]. eapply (proj2 SG); eauto.
-      - intros ?. eapply T_bind with (Q := fun _ h => IF ct G h);
-          [apply invalidate_noop; auto; intros h [H _]; exact H|].
-        intros ?. apply T_ret. intros h [I1 [F1 _]]. auto. }
-    refine ((_ : T (IF ct G) _ (fun _ h => Inv h /\ F h) Inv) s _);
+      - intros ?. eapply T_bind with (Q := fun _ h => IF ct G h).
+        + destruct skip; [apply T_ret; auto|apply invalidate_noop; auto].
+        + intros ?. apply T_ret. exact GE. }
+    refine ((_ : T (IF ct G) _ (fun _ h => (Inv h /\ F h) /\ is_inst l cl h)
+                   (fun h => (Inv h /\ F h) /\ is_inst l cl h)) s _);
       [|split; [exact I|split; [exact Fh|exists d; exact N]]].
-    eapply T_bind; [apply T_guard; intros h [H _]; exact H|]. intros ?.
+    eapply T_bind; [apply T_guard; exact GE|]. intros ?.
     cbv iota. destruct (lookup_attr k a) as [sp|] eqn:Ha; [|exact Del].
     destruct (Hla sp eq_refl) as [Hl Hd].
     eapply T_bind with (Q := fun dv h => IF ct G h /\ loose h dv).
-    { eapply T_conseq; [apply (lookup_default_quiet (exec ct fuel) sp k G Hd (proj1 (proj1 SG)))| auto | auto |].
-      intros h [H _]. exact H. }
+    { eapply T_conseq; [apply (lookup_default_quiet (exec ct fuel) sp k G Hd (proj1 (proj1 SG)))| auto | auto |exact GE]. }
     intros dv. destruct (is_missing dv).
     - eapply T_pre; [|exact Del]. tauto.
     - eapply T_bind with (Q := fun value h => IF ct G h /\ loose h value).
       + eapply T_conseq;
           [apply (prepare_attr_value_any ct Hflat fuel sp l dv G Hl (proj1 SG))
-          | auto | auto | intros h [I1 _]; exact I1].
+          | auto | auto | exact GE].
       + intros value. eapply T_conseq;
-          [apply (mutate_attr_inplace_gen ct Hflat Hninv (exec ct fuel) l a value true true false G (proj2 SG))| | |auto].
+          [apply (mutate_attr_inplace_gen ct Hflat Hninv (exec ct fuel) l a value true true skip G (proj2 SG))| | |exact GE].
         * intros h [[I1 G1] L1]. split; [split; auto|]. split; [left; exact L1|discriminate].
-        * intros r h [I1 [F1 _]]. auto.
+        * intros r h H. apply GE. exact H.
   Qed.
 
-  Lemma exec_delattr_inv fuel l cl k a F :
+  Lemma exec_delattr_inv fuel l cl k a skip F :
     xstable F -> lookup_cls ct cl = Some k ->
     (forall sp, lookup_attr k a = Some sp -> leaf_attr sp /\ default_ok k sp) ->
     T (fun h => (Inv h /\ F h) /\ is_inst l cl h)
-      (exec ct fuel (KDelAttr l a false false)) (fun _ h => Inv h /\ F h) Inv.
+      (exec ct fuel (KDelAttr l a false skip)) (fun _ h => (Inv h /\ F h) /\ is_inst l cl h)
+      (fun h => (Inv h /\ F h) /\ is_inst l cl h).
   Proof.
     intros SF Hk Hla. destruct fuel as [|f]; [apply T_fail; tauto|]. rewrite exec_S. now apply (delattr_inv f l cl k).
   Qed.
@@ -291,8 +303,9 @@ Section Defaults.
     intros I R. unfold step.
     destruct (nth x roots VNone) as [| | | | | | | |l] eqn:Er; try exact I.
     cbn [loc_of]. rewrite bind_ret_l. destruct (R l eq_refl) as (cl & k & Hi & Hk & Hla).
-    eapply T_run_then; [apply (exec_delattr_inv XFUEL l cl k a (fun _ => True) xstable_true Hk Hla)| | |]; auto.
+    eapply T_run_then; [apply (exec_delattr_inv XFUEL l cl k a false (fun _ => True) xstable_true Hk Hla)| | |]; auto.
     - cbv beta. auto.
+    - cbv beta. tauto.
     - cbv beta. tauto.
   Qed.
 
@@ -307,10 +320,12 @@ Section Defaults.
     destruct (nth x roots VNone) as [| | | | | | | |l] eqn:Er; try exact I.
     cbn [loc_of]. rewrite bind_ret_l. destruct (R l eq_refl) as (cl & k & Hi & Hk & Hla).
     unfold run_helper. destruct (negb (h_if hh)); [exact I|]. rewrite Hin. rewrite bind_ret_l. cbn [negb].
-    eapply T_run_then with (P := fun h => (Inv h /\ True) /\ is_inst l cl h) (Q := fun _ h => Inv h /\ True) (E := Inv);
-      [|cbv beta; auto|cbv beta; tauto|auto].
+    eapply T_run_then with (P := fun h => (Inv h /\ True) /\ is_inst l cl h)
+                           (Q := fun _ h => (Inv h /\ True) /\ is_inst l cl h)
+                           (E := fun h => (Inv h /\ True) /\ is_inst l cl h);
+      [|cbv beta; auto|cbv beta; tauto|cbv beta; tauto].
     apply T_thawed_false; [tauto|].
-    apply (exec_delattr_inv XFUEL l cl k a (fun _ => True) xstable_true Hk Hla).
+    apply (exec_delattr_inv XFUEL l cl k a false (fun _ => True) xstable_true Hk Hla).
   Qed.
 End Defaults.
 
@@ -384,7 +399,7 @@ Section Ctor.
     { rewrite Hmro. cbn [rev foldM].
       eapply T_bind with (Q := fun _ h => IF ct G h); [|intros ?; apply T_ret; auto].
       eapply T_conseq;
-        [apply (raw_setattr_frame ct Hflat l A_INITIALIZING (VBool true) G (proj2 SG))| | |auto].
+        [apply (raw_setattr_frame ct Hflat l A_INITIALIZING (VBool true) G (proj2 SG))| | |intros h [H _]; exact H].
       - intros h [I [K [d N]]]. split; [split; [exact I|split; [exact K|exists d; exact N]]|].
         split; [left; exact Logic.I|].
         intros cl0 d1 k0 sp N1 Hk0 Ha0. rewrite (Hres _ _ Hk0) in Ha0. discriminate.
@@ -417,7 +432,7 @@ Section Ctor.
       eapply T_bind with (Q := fun _ h => IF ct G h); [|intros ?; apply T_ret; auto].
       eapply T_conseq;
         [apply (exec_setattr_gen ct Hflat Hninv fuel l c k (a_name sp) value' true true (kw_flat kw)
-                  (xstable_kw_flat kw) Hk)| | |auto].
+                  (xstable_kw_flat kw) Hk)| | |intros h [[H _] _]; exact H].
       + intros sp' Ha'. apply Hat. eapply lookup_attr_in; eauto.
       + intros h [[I [K N]] L]. split; [split; auto|]. split; auto.
       + intros r h [[I K] N]. split; [exact I|split; auto].
@@ -435,52 +450,196 @@ Section Ctor.
     intro H. destruct fuel as [|f]; [apply T_fail; tauto|]. rewrite exec_S. now apply (init_inv f c k).
   Qed.
 
-  (* the call C(k1=v1, ...): keyword values are flat (they are copied); no positional argument *)
-  Theorem construct_inv fuel c k kw s :
+  (* the call C(pos, k1=v1, ...): the values are flat (they are copied); a positional argument
+     is the value of the key attribute *)
+  Theorem construct_inv fuel c k pos kw s :
     ctor_class c k -> Inv (heap s) -> kw_flat kw (heap s) ->
-    Inv (heap (snd (construct ct (exec ct fuel) c None kw s))).
+    match pos with Some v => flat_val (heap s) v | None => True end ->
+    Inv (heap (snd (construct ct (exec ct fuel) c pos kw s))).
   Proof.
-    intros Hc I K. pose proof Hc as (Hk & Fc & Ho & _).
+    intros Hc I K Kp. pose proof Hc as (Hk & Fc & Ho & _).
     unfold construct.
     erewrite bind_ok'; [|unfold cls_of; rewrite Hk; reflexivity].
-    rewrite bind_ret_l.
-    (* the two pure checks *)
-    assert (Pure : forall (m : M unit) (R : M val), hpure m ->
-               Inv (heap (snd (R s))) -> (forall s', heap s' = heap s -> Inv (heap (snd (R s')))) ->
-               Inv (heap (snd ((m ;;; R) s)))).
-    { intros m R Hp _ HR. unfold bind. specialize (Hp s). destruct (m s) as [[u|e] s1]; simpl in *.
-      - apply HR. exact Hp.
-      - rewrite Hp. exact I. }
-    assert (Tail : forall s', heap s' = heap s ->
-               Inv (heap (snd ((l <- alloc (OInst c []) ;; exec ct fuel (KInit (c_owner k) l kw) ;;; ret (VRef l)) s')))).
-    { intros s' Es. unfold bind at 1. unfold alloc. rewrite Es. rewrite Ho.
+    assert (Pure : forall s0 (m : M unit) (R : M val), heap s0 = heap s -> hpure m ->
+               (forall s', heap s' = heap s -> Inv (heap (snd (R s')))) ->
+               Inv (heap (snd ((m ;;; R) s0)))).
+    { intros s0 m R Es Hp HR. unfold bind. specialize (Hp s0). destruct (m s0) as [[u|e] s1]; simpl in *.
+      - apply HR. congruence.
+      - rewrite Hp, Es. exact I. }
+    assert (Tail : forall kw', kw_flat kw' (heap s) -> forall s', heap s' = heap s ->
+               Inv (heap (snd ((l <- alloc (OInst c []) ;; exec ct fuel (KInit (c_owner k) l kw') ;;; ret (VRef l)) s')))).
+    { intros kw' K' s' Es. unfold bind at 1. unfold alloc. rewrite Es. rewrite Ho.
       set (l := length (heap s)).
       set (s1 := mkst (heap s ++ [OInst c []]) (ncalls s') (fail_at s')).
-      eapply (T_run_then _ _ _ _ Inv _ s1 (exec_init_inv fuel c k l kw Hc)); auto.
+      eapply (T_run_then _ _ _ _ Inv _ s1 (exec_init_inv fuel c k l kw' Hc)); auto.
       cbv beta. simpl heap. split; [split; [apply Inv_alloc_inst; auto|]|].
-      - intros a v Hi. specialize (K a v Hi). destruct v; simpl in *; auto.
-        destruct K as (o & N & R). exists o. split; auto. rewrite nth_error_app1; auto.
+      - intros a v Hi. specialize (K' a v Hi). destruct v; simpl in *; auto.
+        destruct K' as (o & N & R). exists o. split; auto. rewrite nth_error_app1; auto.
         apply nth_error_Some. congruence.
       - exists []. rewrite nth_error_app2 by (unfold l; lia). unfold l. now rewrite Nat.sub_diag. }
-    apply Pure.
-    - destruct (c_key k) as [ka|]; [|apply hpure_ret].
-      destruct (lookup_attr k ka) as [ksp|]; [|apply hpure_ret].
-      destruct (_ && _ && _); [apply hpure_fail|apply hpure_ret].
-    - apply Pure; [destruct (init_wrapper_ok k kw); [apply hpure_ret|apply hpure_fail]|apply Tail; reflexivity|exact Tail].
-    - intros s' Es. unfold bind at 1.
-      assert (Hp : hpure (if init_wrapper_ok k kw then ret tt else fail TypeErr))
-        by (destruct (init_wrapper_ok k kw); [apply hpure_ret|apply hpure_fail]).
-      specialize (Hp s'). destruct ((if init_wrapper_ok k kw then ret tt else fail TypeErr) s') as [[u|e] s2]; simpl in *.
-      + apply Tail. congruence.
-      + rewrite Hp, Es. exact I.
+    assert (Rest : forall kw', kw_flat kw' (heap s) ->
+      Inv (heap (snd (((match c_key k with
+       | Some ka =>
+           match lookup_attr k ka with
+           | Some ksp => if is_missing (a_default ksp)
+                            && match a_factory ksp with None => true | Some _ => false end
+                            && negb (kw_has ka kw')
+                         then fail TypeErr else ret tt
+           | None => ret tt end
+       | None => ret tt end) ;;;
+      (if init_wrapper_ok k kw' then ret tt else fail TypeErr) ;;;
+      l <- alloc (OInst c []) ;; exec ct fuel (KInit (c_owner k) l kw') ;;; ret (VRef l)) s)))).
+    { intros kw' K'. apply Pure; auto.
+      - destruct (c_key k) as [ka|]; [|apply hpure_ret].
+        destruct (lookup_attr k ka) as [ksp|]; [|apply hpure_ret].
+        destruct (_ && _ && _); [apply hpure_fail|apply hpure_ret].
+      - intros s' Es. apply Pure; auto.
+        destruct (init_wrapper_ok k kw'); [apply hpure_ret|apply hpure_fail]. }
+    destruct pos as [v|].
+    - destruct (c_key k) as [ka|] eqn:Ek.
+      + destruct (kw_has ka kw); [exact I|]. rewrite bind_ret_l. apply Rest.
+        intros a0 v0 [E|Hi]; [inversion E; subst; exact Kp|eapply K; eauto].
+      + exact I.
+    - rewrite bind_ret_l. apply Rest. exact K.
   Qed.
 
-  Theorem step_construct roots c k kw s :
+  Theorem step_construct roots c k pos kw s :
     ctor_class c k -> Inv (heap s) -> kw_flat kw (heap s) ->
-    Inv (heap (snd (step ct roots (OpConstruct c None kw) s))).
+    match pos with Some v => flat_val (heap s) v | None => True end ->
+    Inv (heap (snd (step ct roots (OpConstruct c pos kw) s))).
   Proof.
-    intros Hc I K. unfold step.
+    intros Hc I K Kp. unfold step.
     assert (Ex : exists f, XFUEL = S f) by (exists 39; reflexivity). destruct Ex as [f ->].
     rewrite exec_S. cbn [body]. now apply (construct_inv f c k).
   Qed.
 End Ctor.
+
+(* ------------------------------------------------------------------ *)
+(** * reset_<a> copy-on-write, reset() in place and copy-on-write *)
+Section Resets.
+  Variable ct : ctable.
+  Hypothesis Hflat : flat_table ct.
+  Hypothesis Hninv : no_inval_table ct.
+  Hypothesis Hres : no_reserved_names ct.
+  Notation Inv := (Inv ct).
+  Notation rec := (exec ct XFUEL).
+
+  Definition PI (l : loc) (cl : cid) (h : heap_t) : Prop := Inv h /\ is_inst l cl h.
+
+  Lemma del_keep l cl k a :
+    lookup_cls ct cl = Some k ->
+    (forall sp, lookup_attr k a = Some sp -> leaf_attr sp /\ default_ok k sp) ->
+    T (PI l cl) (rec (KDelAttr l a false false)) (fun _ h => PI l cl h) (PI l cl).
+  Proof.
+    intros Hk Hla. eapply T_conseq;
+      [apply (exec_delattr_inv ct Hflat Hninv XFUEL l cl k a false (fun _ => True) xstable_true Hk Hla)| | |];
+      unfold PI; tauto.
+  Qed.
+
+  (* _thawed(l, thaw) around a computation that keeps PI *)
+  Lemma thawed_keep {A} l cl thaw (m : M A) :
+    T (PI l cl) m (fun _ h => PI l cl h) (PI l cl) ->
+    T (PI l cl) (thawed ct l thaw m) (fun _ h => Inv h) Inv.
+  Proof.
+    intro Hm. unfold thawed.
+    assert (PE : forall h, PI l cl h -> Inv h) by (unfold PI; tauto).
+    assert (Hm' : T (PI l cl) m (fun _ h => Inv h) Inv) by (eapply T_conseq; [exact Hm|auto|intros; apply PE; auto|exact PE]).
+    eapply T_bind; [apply T_hpure; [apply hpure_read|exact PE]|]. intros o.
+    destruct o; try exact Hm'.
+    eapply T_bind; [apply T_hpure; [unfold cls_of; hpgo|exact PE]|]. intros k0.
+    destruct (negb thaw || negb (c_frozen k0) || initializing d); [exact Hm'|].
+    eapply T_bind with (Q := fun _ h => PI l cl h).
+    - eapply T_conseq;
+        [apply (raw_setattr_frame ct Hflat l A_INITIALIZING (VBool true) (is_inst l cl) (proj2 (xstable_is_inst l cl)))| | |].
+      + intros h [I N]. split; [split; auto|]. split; [left; exact Logic.I|].
+        intros cl0 d1 k1 sp N1 Hk1 Ha1. rewrite (Hres _ _ Hk1) in Ha1. discriminate.
+      + intros r h H. exact H.
+      + intros h [I _]. exact I.
+    - intros ?. eapply T_finally with (Q' := fun _ h => PI l cl h) (E' := PI l cl).
+      + exact Hm.
+      + intros ?. eapply T_pre; [|apply raw_delattr_Inv; auto]. exact PE.
+      + eapply T_pre; [|apply raw_delattr_Inv; auto]. exact PE.
+  Qed.
+
+  Lemma FUEL3 : exists f, FUEL = S (S (S f)).
+  Proof. exact FUEL_SSS. Qed.
+
+  (* the copy of the receiver of a copy-on-write reset *)
+  Lemma copy_recv l s cl (d : list (nat * val)) k (K : loc -> M val) :
+    Inv (heap s) -> flat_recv ct l (heap s) cl d k ->
+    (forall new s1, Inv (heap s1) -> is_inst new cl (heap s1) -> Inv (heap (snd (K new s1)))) ->
+    Inv (heap (snd ((l' <- (v <- deepcopy ct (VRef l) ;; loc_of v) ;; K l') s))).
+  Proof.
+    intros I (N & Hk & Fc & Km) HK.
+    pose proof (FI_of_Inv ct (heap s) l cl d k I N Hk Fc Km) as Fi.
+    destruct FUEL3 as [f Ef].
+    pose proof (dc_instance ct Hflat f l s cl d k I Fi) as DC.
+    unfold bind at 1. unfold bind at 1. unfold deepcopy. unfold bind at 1. rewrite Ef.
+    destruct (dc ct (S (S (S f))) (VRef l) [] s) as [[r|e] s1]; [|exact (proj2 DC)].
+    destruct DC as (new & d' & Er & _ & _ & I1 & (N1 & _) & _).
+    cbn [ret]. rewrite Er. cbn [loc_of ret]. apply HK; auto. exists d'. exact N1.
+  Qed.
+
+  (* obj.reset_<a>() -- copy-on-write *)
+  Theorem reset_cow l a hh s cl d k :
+    h_inplace hh = false -> Inv (heap s) -> flat_recv ct l (heap s) cl d k ->
+    (forall sp, lookup_attr k a = Some sp -> leaf_attr sp /\ default_ok k sp) ->
+    Inv (heap (snd (run_helper ct l (HReset a) hh s))).
+  Proof.
+    intros Hin I FR Hla. pose proof FR as (_ & Hk & _).
+    unfold run_helper. destruct (negb (h_if hh)); [exact I|]. rewrite Hin. cbn [negb].
+    apply (copy_recv l s cl d k (fun l' => thawed ct l' true (rec (KDelAttr l' a false false)) ;;; ret (VRef l')) I FR).
+    intros new s1 I1 N1.
+    eapply (T_run_then (PI new cl) _ (fun _ h => Inv h) Inv Inv _ s1); auto; [|split; auto].
+    apply thawed_keep. apply (del_keep new cl k a Hk Hla).
+  Qed.
+
+  Lemma reset_all_keep l cl k :
+    lookup_cls ct cl = Some k ->
+    (forall a sp, lookup_attr k a = Some sp -> leaf_attr sp /\ default_ok k sp) ->
+    T (PI l cl)
+      (iterM (fun sp => catch (rec (KDelAttr l (a_name sp) false false) ;;; ret tt)
+                              (fun e => err_eqb e AttrErr) (ret tt)) (c_attrs k))
+      (fun _ h => PI l cl h) (PI l cl).
+  Proof.
+    intros Hk Hla. apply T_iterM. intros sp _.
+    eapply T_catch with (E' := PI l cl); [|apply T_ret; auto|auto].
+    eapply T_bind; [apply (del_keep l cl k (a_name sp) Hk (Hla (a_name sp)))|]. intros ?. apply T_ret. auto.
+  Qed.
+
+  Lemma reset_all_from l' cl k thaw s1 :
+    lookup_cls ct cl = Some k ->
+    (forall a sp, lookup_attr k a = Some sp -> leaf_attr sp /\ default_ok k sp) ->
+    Inv (heap s1) -> is_inst l' cl (heap s1) ->
+    Inv (heap (snd ((p <- read_inst l' ;; k0 <- cls_of ct (fst p) ;;
+                     thawed ct l' thaw
+                       (iterM (fun sp => catch (rec (KDelAttr l' (a_name sp) false false) ;;; ret tt)
+                                               (fun e => err_eqb e AttrErr) (ret tt)) (c_attrs k0)) ;;;
+                     ret (VRef l')) s1))).
+  Proof.
+    intros Hk Hla I1 [d1 N1].
+    erewrite bind_ok'; [|apply read_inst_eq; eauto]. cbn [fst snd].
+    erewrite bind_ok'; [|unfold cls_of; rewrite Hk; reflexivity].
+    eapply (T_run_then (PI l' cl) _ (fun _ h => Inv h) Inv Inv _ s1); auto; [|split; [auto|exists d1; auto]].
+    apply thawed_keep. now apply reset_all_keep.
+  Qed.
+
+  (* obj.reset(), in place and copy-on-write *)
+  Theorem reset_all l hh s cl d k :
+    Inv (heap s) -> flat_recv ct l (heap s) cl d k ->
+    (forall a sp, lookup_attr k a = Some sp -> leaf_attr sp /\ default_ok k sp) ->
+    Inv (heap (snd (run_helper ct l HResetTop hh s))).
+  Proof.
+    intros I FR Hla. pose proof FR as (N & Hk & _).
+    unfold run_helper. destruct (negb (h_if hh)); [exact I|].
+    destruct (h_inplace hh); cbn [negb].
+    - rewrite bind_ret_l. apply (reset_all_from l cl k false s Hk Hla I). exists d. exact N.
+    - apply (copy_recv l s cl d k (fun l' =>
+               p <- read_inst l' ;; k0 <- cls_of ct (fst p) ;;
+               thawed ct l' true
+                 (iterM (fun sp => catch (rec (KDelAttr l' (a_name sp) false false) ;;; ret tt)
+                                         (fun e => err_eqb e AttrErr) (ret tt)) (c_attrs k0)) ;;;
+               ret (VRef l')) I FR).
+      intros new s1 I1 N1. now apply (reset_all_from new cl k true s1 Hk Hla).
+  Qed.
+End Resets.
